@@ -98,10 +98,32 @@ def run(tier="quick", mktable=False):
         for i, p in enumerate(f.params):
             if p.get("tp"):
                 results[(f.name, i)] = (f, nullness.scenario(f, i, summ))
+    # parameters a function does not test itself but hands to a callee that does (contains(self, obj) -> find(self, obj)): the
+    # NULL argument is safe by delegation today, so it must stay free of dereferences (class DELEGATED, G1 only)
+    tested = {k for k, (f, r) in results.items() if r.tests}
+    delegated = set()
+    grew = True
+    while grew:
+        grew = False
+        for (name, i), (f, r) in results.items():
+            if (name, i) in tested or (name, i) in delegated or r.derefs or r.tests:
+                continue
+            d = f.params[i]["d"]
+            for c in X.calls_in(f.body):
+                g = prog.fn(X.callee_name(c) or "")
+                if g is None:
+                    continue
+                for k, a in enumerate(c["ch"][1:]):
+                    sa = X.strip(a)
+                    if sa is not None and sa.get("k") == "ref" and sa.get("d") == d and ((g.name, k) in tested or (g.name, k) in delegated):
+                        delegated.add((name, i))
+                        grew = True
     if mktable:
         entries = []
         for (name, i), (f, r) in sorted(results.items()):
             c, v = classify(f, i, r)
+            if c == "UNTESTED" and (name, i) in delegated:
+                c, v = "DELEGATED", None
             if c == "UNTESTED":
                 continue
             e = {"fn": name, "param": i, "pname": f.params[i]["n"], "class": c}
